@@ -5,7 +5,7 @@ from .. import AnalysisError
 from ..cfg import flag_filter
 from ..flow import show
 from ..report import ob_ok, ob_fail
-from .common import is_call, method_call, need, guards_of, aug_like
+from .common import is_call, method_call, need, guards_of, aug_like, call_arg
 
 
 class Phases:
@@ -140,7 +140,8 @@ def ord_resolve_phases(repo, tier="quick"):
                             reason="a path with %s false reaches the return without %s" % (flag, lab))))
     # the hydrogen rebuild acts on the fine graph, the sort result is assigned back to it
     for call, nid in ph.sites["hydrogens"]:
-        t = fi.flow.canon(call.args[0], nid) if call.args else None
+        a0 = call_arg(call, 0, "mol_graph")
+        t = fi.flow.canon(a0, nid) if a0 is not None else None
         cur = fi.flow.canon(ast.parse("self.molecule", mode="eval").body, nid)
         if t is not None and t == cur:
             obs.append(ob_ok("ORD.resolve-phases", fi, call, construct="rebuild_h_atoms(self.molecule)", instance="hydrogens:target",
@@ -184,10 +185,11 @@ def ord_resolve_annotate(repo, tier="quick"):
     # arguments: annotate_fragments(<coarse graph>, <fine graph>) with the fine graph being the sorted one
     for call, nid in ph.sites["annotate"]:
         fl = fi.flow
-        if len(call.args) >= 2:
-            fine = fl.canon(call.args[1], nid)
+        a_c, a_f = call_arg(call, 0, "meta_graph"), call_arg(call, 1, "molecule")
+        if a_c is not None and a_f is not None:
+            fine = fl.canon(a_f, nid)
             cur = fl.canon(ast.parse("self.molecule", mode="eval").body, nid)
-            coarse = fl.canon(call.args[0], nid)
+            coarse = fl.canon(a_c, nid)
             curc = fl.canon(ast.parse("self.meta_graph", mode="eval").body, nid)
             ok = fine == cur and coarse == curc and is_call(cur, "sort_nodes_by_attr") is not None
             if ok:
@@ -219,7 +221,8 @@ def ord_resolve_stereo(repo, tier="quick"):
      obs.append(ob_fail("ORD.resolve-stereo", fi, construct="ez annotation on every all-atom path", instance="every-path",
                         reason="an all-atom path returns without resolving the cis/trans class marks")))
     for call, nid in ph.sites["ez"]:
-        t = fi.flow.canon(call.args[0], nid) if call.args else None
+        a0 = call_arg(call, 0, "molecule")
+        t = fi.flow.canon(a0, nid) if a0 is not None else None
         cur = fi.flow.canon(ast.parse("self.molecule", mode="eval").body, nid)
         if t == cur and is_call(cur, "sort_nodes_by_attr") is not None:
             obs.append(ob_ok("ORD.resolve-stereo", fi, call, construct="annotate_ez_isomers_cgsmiles(self.molecule)", instance="ez:target",
@@ -497,7 +500,8 @@ def ord_compute_mass(repo, tier="quick"):
                         reason="implicit hydrogens are not added before summing: element-derived masses miss them")]
     work = None
     for call, nid, _ in hs:
-        t = fl.canon(call.args[0], nid) if call.args else None
+        a0 = call_arg(call, 0, "mol_graph")
+        t = fl.canon(a0, nid) if a0 is not None else None
         m = method_call(t, "copy") if t else None
         c = is_call(t, "deepcopy") if t else None
         if (m and m[0] == param) or (c and c[0] and c[0][0] == param):
